@@ -37,3 +37,25 @@ add("C04", "exploration", ["dbh"], dbh("c04"),
     "equal, removed values unreadable, fresh indexes not in use, packed length after optimize, everything preserved by reopen.",
     "Operations are issued on live indexes (plus reads of removed ones); held on the histories generated, nothing more.",
     "DESIGN.md §6 C04")
+
+
+HIST_NOTE = ("The reference model encodes the documented query semantics (agdb_web/content/docs/03.references/01.queries.md); ids are adopted "
+             "from the implementation. Held on the generated histories (<= ~12 nodes plus occasional bursts of 70-150 elements), nothing more.")
+
+for pid, what in [
+    ("C08", "node/edge ids (sign, slot not in use), endpoints, node count, per-node edge counts, adjacency, cascade on node removal, rejected edges to missing nodes"),
+    ("C09", "per-element ordered key-value map: replace in place / append, key removal, select all / keys / key count, insert-or-update forms"),
+    ("C10", "alias <-> node bijection observed both ways (select aliases, select aliases ids, resolving every alias string ever used), rejection of empty aliases and edge aliases without effect"),
+    ("C11", "index listing counts and index search contents for every (indexed key, value in the domain) pair, back-fill on creation, duplicate creation rejected"),
+]:
+    add(pid, "exploration", ["dbh"], dbh("hist_" + pid.lower()),
+        "reference-model monitor over generated query histories + full canonical dump comparison after every query",
+        "Seeded hostile histories on all six database variants; every mutating query is predicted by the reference model and the full "
+        "canonical dump is compared after every query. This check owns the monitor classes for: " + what + ".",
+        HIST_NOTE, "DESIGN.md §6 " + pid + ", §5.1-5.3")
+
+add("C13", "exploration", ["dbh"], dbh("c13"),
+    "before/after canonical-dump comparison around rolled-back transactions and failing queries",
+    "Histories alternating committed queries with mutable transactions of 1-8 generated queries that are rolled back (closure error or "
+    "failing query) and single queries failing after partial work; the order-insensitive dump after must equal the dump before.",
+    HIST_NOTE, "DESIGN.md §6 C13")
